@@ -127,6 +127,18 @@ CLAIMS = {
         "validated on every run as described. encoding/json's decoding into the GruleJSON struct and unicode.IsPrint (a table; modelled for ASCII and 23 listed "
         "code points, others are reported unmodelled) are modelled in the driver, not verified. Fixes af5d32f, 11fbd47, a61ddb2, 93e05b8, 0a50cc6 in /repo.",
         tech="Lean 4 executable translator + meaning models, rejection theorems + byte-level correspondence + meaning check on the real engine", ref="5.C18"),
+ "C20": dict(text="PARTIAL. Proved over the Lean models: the payload allocation of LoadKnowledgeBaseFromReader on any byte string is at most its length plus one 64 KiB "
+        "block (C20_grb_alloc_bounded over readAlloc/readMany, the model of readBytesFromReader/preallocCount; readAlloc_le, readAlloc_success), short streams "
+        "allocate nothing (C20_grb_short), JSON nesting is cut at 1024 levels (C20_json_depth_guard), the GRL front end is a total function whose only "
+        "rule-bearing verdict is `accepted` (C20_grl_verdict_total; an out-of-range salience is a verdict, not a panic). Ties regenerated from the sources on every "
+        "run (T4, decide): the list of every make() with a data-dependent size in ast/Serializer.go, the loader's deferred recover, the blank-input guard, the depth "
+        "guard constant, the salience guard. Everything else is validation, not proof: each loader runs in a child process (8 GiB address-space cap, wall-clock "
+        "limit) on random bytes and structure-aware mutants (bit flips, length-field edits, truncation, splicing, boundary numbers, nesting bombs) of valid "
+        "GRL / JSON-rule / JSON-fact / GRB inputs; process death, recovered panics, time and bytes allocated are compared with explicit budgets.",
+        note="Runtime behaviour the model cannot exhibit and that is only validated: cost of the ANTLR runtime and generated parser, encoding/json, Go allocator and "
+        "stack limits. Known findings F19a/F19b (super-linear time and memory of the GRL front end on deeply nested or long expressions) are printed as "
+        "KNOWN-FINDING on every run. Fixes 8ec1b87 (GRB allocations), 2e94e10 (salience panic), af5d32f (blank JSON) in /repo.",
+        tech="Lean 4 allocation-bound proof over the wire reader model + regenerated loader facts (decide ties) + sandboxed child-process validation with budgets", ref="5.C20"),
 }
 
 def main():
@@ -155,7 +167,7 @@ def main():
          "engines": [
              {"name": "lean-model", "path": "lean/", "serves_properties": [c["property_id"] for c in checks],
               "kind_free_text": "Lean 4 model (Impl + Spec), theorems in lean/GruleModel/Properties, helper proofs in lean/GruleModel/Proofs"},
-             {"name": "extractors", "path": "tools/extract/", "serves_properties": ["C04", "C05", "C12", "C17", "C19"],
+             {"name": "extractors", "path": "tools/extract/", "serves_properties": ["C04", "C05", "C12", "C17", "C19", "C20"],
               "kind_free_text": "go/ast translators regenerating lean/GruleModel/Gen/*.lean from /repo on every run"},
              {"name": "harness", "path": "harness/", "serves_properties": [c["property_id"] for c in checks],
               "kind_free_text": "Go harness running scenarios on the real engine in-process; run/*.py generate, canonicalise, diff"}],
